@@ -148,6 +148,8 @@ func (m *observerManager) AddObserver(o *Observer, w *World) {
 	o.id = m.pool.Get()
 
 	o.hasComps, o.hasWith, o.hasWithout = false, false, false
+	// The masks may still hold the component IDs of the world the observer was registered in before.
+	o.compsMask, o.withMask, o.withoutMask = bitMask{}, bitMask{}, bitMask{}
 
 	switch o.event {
 	case OnAddRelations, OnRemoveRelations:
